@@ -245,10 +245,17 @@ def main(run, tier):
     literal_tables(run, mods, tier)
     from . import extractobl
     extractobl.add(run, tier)
+    # E1: what each value-building rule hands to the dispatcher (contracts/extractor.py) -- LiteralEval evaluates exactly the text of
+    # each chunk, GroupAsList keeps every value (also the falsy ones) in order, unary minus / plus of a Number operand, RawBoolean,
+    # Raw, the token handler's fragment; finite scenarios (chunk / item lists of length 0..3), symbolic texts and numbers
+    from ..e1run import verify_functions
+    import contracts.extractor as cx
+    verify_functions(run, cx.build(extractor, importlib.import_module('calmjs.parse.asttypes')), {}, {}, tier=tier)
     run.floor = 100
     run.trust('json.loads as the oracle for "the Python value a JSON parser gives"')
-    run.assume('no deductive contract: the extractor is a rule table interpreted by the generic walker; compositionality of '
-               'ast.literal_eval / JSON decoding over the escape segmentation is assumed, the per-token tables are exhaustive')
+    run.assume('GroupAsMap / GroupAsAssignment / AttrListAssignment / TopLevelAttrs have no E1 contract (dict.update over a custom '
+               'sequence class is outside the generator): they are decided per node kind by O-extract on stub children; '
+               'compositionality of ast.literal_eval / JSON decoding over the escape segmentation is assumed, the per-token tables are exhaustive')
 
 
 def replay(data):
